@@ -210,6 +210,24 @@ def run_part(ctx):
                           "a connection accepted just before the listener closed never saw the end of stream: %s" % json.dumps(noeof[0]),
                           {"module": "TcpConn", "burst": noeof[:5]})
 
+    # (b4) accept errors that are neither net.ErrClosed nor timeouts (EMFILE) between connections: the listener is still open,
+    #      StreamServe goes on accepting and serves every connection that follows
+    of2 = os.path.join(ctx.sub("burst"), "accepterr.ndjson")
+    rc, out, err = vlib.run([tc.driver(ctx), "accepterr", "-rounds", str(3 if q else 20), "-n", "3", "-seed", str(ctx.seed), "-out", of2],
+                            env=vlib.goenv(), timeout=900)
+    if rc != 0:
+        raise vlib.Inconclusive("tcpconn accepterr failed rc=%d: %s" % (rc, err[-1500:]))
+    arows = [r for r in vlib.read_ndjson(of2) if r.get("ev") == "AcceptErr"]
+    abad = [r for r in arows if r["serveEndedWithListenerOpen"] or r["served"] < r["n"] or r["clientsSawEOF"] < r["n"]]
+    ctx.cov["evaluations"] += len(arows)
+    ctx.cov.setdefault("c18_tcp", {})["accept_errors"] = {"rounds": len(arows), "injected": sum(r["injected"] for r in arows),
+                                                         "rounds_with_unserved_connections": len(abad)}
+    if abad:
+        ctx.violation(_sig("accept-error-stops-the-listener", "service/tcp.go StreamServe"),
+                      "after an accept error that is neither net.ErrClosed nor a timeout (EMFILE, injected by the accept function) "
+                      "StreamServe stopped serving although the listener was open: %s" % json.dumps(abad[0]),
+                      {"module": "TcpConn", "accepterr": abad[:5]})
+
     # (c) raw garbage and replays with a short timeout (probe classes), many at once
     g = tc.gen(ctx, "Gen_TcpConn_C06NoFin.cfg", 600 if q else 4000, seed=ctx.seed + 4)
     gp = tc.select(g, 30 if q else 400, lambda f: (f["hs"], min(f["ntok"], 4)), rng)
